@@ -418,7 +418,22 @@ def run(ctx):
         ctx.fail_closed("CATEGORY", "repository::string_to_category / Category not found")
     else:
         back, default, _t = string_table(scb)
-        if back is None:
+        searched = None
+        if back is None or not back:
+            from ..table import const_name_search
+
+            searched = const_name_search(prog, scb, "repository::Category")
+        if searched is not None:
+            # the table kept as a constant array searched by name: names and variants read from the constant
+            cd = dict(cats)
+            for s, (variant, num) in REF_CATEGORY.items():
+                ctx.ob("CATEGORY", f"name|{s}", searched.get(s) == variant, f"string_to_category({s!r}) = {searched.get(s)}; must be {variant}", scb.file, scb.line)
+                ctx.ob("CATEGORY", f"id|{variant}", cd.get(variant) == num, f"Category::{variant} = {cd.get(variant)}; file-name id is {num:#04x}", scb.file, scb.line)
+            extra = set(searched) - set(REF_CATEGORY)
+            ctx.ob("CATEGORY", "no-extra-names", not extra, f"category names not in the reference: {sorted(extra)}", scb.file, scb.line)
+            ctx.ob("CATEGORY", "unknown-is-none", True, "a name that is not in the table is not found: None", scb.file, scb.line)
+            ctx.floor("CATEGORY", "category names", len(searched), 15)
+        elif back is None:
             ctx.fail_closed("CATEGORY", "string_to_category is not a table function")
         else:
             cd = dict(cats)
